@@ -287,16 +287,29 @@ func HarnessC10Round() {
 // c10RoundTrip registers p as the only route and routes the request obtained by substituting values
 // (symbolic ones of 1..2 / 1..3 bytes, or fixed ones when concrete is set) for its wildcards.
 func c10RoundTrip(p string, g gram, concrete bool) {
-	r, err := fox.New()
+	var opts []fox.GlobalOption
+	if concrete {
+		opts = append(opts, fox.WithIgnoreTrailingSlash(true)) // for the served variant at the end
+	}
+	r, err := fox.New(opts...)
 	if err != nil {
 		panic(err)
 	}
-	rte, err := r.Handle("GET", p, noopHandler)
+	var servedPs []kv
+	served := false
+	record := func(c fox.Context) { served, servedPs = true, collectParams(c) }
+	rte, err := r.Handle("GET", p, record)
 	sym.Assert(err == nil && rte != nil, "a pattern valid per the grammar registers on an empty router")
 	if err != nil {
 		return
 	}
 	if concrete {
+		// the route is replaced in place once (Update), still the only route
+		rte, err = r.Update("GET", p, record)
+		sym.Assert(err == nil && rte != nil && r.Len() == 1, "the only route can be updated in place")
+		if err != nil {
+			return
+		}
 		// a neighbour extending the hostname (or the path) comes and goes: p is the only route again
 		ext := p + "zz"
 		if g.hostEnd > 0 {
@@ -311,6 +324,7 @@ func c10RoundTrip(p string, g gram, concrete bool) {
 	// build the request by substituting values
 	toks := tokens(p)
 	host, path := "", ""
+	altHost, altPath := "", "" // the same request with other parameter values (concrete mode)
 	var want []kv
 	infixCatchAll := false
 	sawCatch := false
@@ -357,10 +371,16 @@ func c10RoundTrip(p string, g gram, concrete bool) {
 			pos += len(t.name) + 3
 			sawCatch = true
 		}
+		altPiece := piece
+		if concrete && t.kind != tkStatic {
+			altPiece = "z" + piece[1:]
+		}
 		if inHost {
 			host += piece
+			altHost += altPiece
 		} else {
 			path += piece
+			altPath += altPiece
 		}
 	}
 	if hasEmptySegment(path) {
@@ -387,6 +407,18 @@ func c10RoundTrip(p string, g gram, concrete bool) {
 		sym.Assert(sameParams(ps, want), "the reported values are exactly the substituted ones")
 	} else {
 		sym.Cover("catch-all followed by further text")
+	}
+	if concrete && path != "/" {
+		// the same through ServeHTTP on recycled contexts that last served a slash-toggled request with other parameter values
+		w := &nullWriter{h: http.Header{}}
+		toggled := &http.Request{Method: "GET", Host: altHost, URL: &url.URL{Path: toggleSlash(altPath)}}
+		for k := 0; k < 3; k++ {
+			r.ServeHTTP(w, toggled)
+		}
+		served, servedPs = false, nil
+		r.ServeHTTP(w, req)
+		sym.Assert(served && sameParams(servedPs, ps), "ServeHTTP serves the request with the same parameters")
+		sym.Cover("round trip served after slash-toggled requests")
 	}
 }
 
